@@ -105,7 +105,12 @@ func init() {
 		Gen: func(t *rapid.T, thorough bool) *Script {
 			o := mixedOpts(thorough)
 			o.Faults, o.BindFailures, o.MIG, o.Twins = false, false, false, true
-			return GenScript(t, "C16", "twins", o)
+			s := GenScript(t, "C16", "twins", o)
+			if chance(t, "queuedepth", 30) {
+				// a bounded number of jobs per queue is tried by allocate: the bound must keep the first jobs of the order
+				s.Config.QueueDepth = map[string]int{"allocate": rapid.IntRange(1, 4).Draw(t, "allocdepth")}
+			}
+			return s
 		},
 		Oracles: func() []Oracle { return []Oracle{OrderOracle{}} },
 	}
